@@ -117,3 +117,11 @@ package services
 //@   ensures  healthy_state: m.state == healthy <==> len(get(m.byState, Running)) == len(m.services)
 //@   ensures  stopped_state: m.state == stopped <==> (len(get(m.byState, Running)) != len(m.services) && len(get(m.byState, Terminated)) + len(get(m.byState, Failed)) == len(m.services))
 //@   ensures  moved: len(get(m.byState, to)) >= 1
+//@
+//@ # ---- listeners: a listener added before the last transition is registered (so that it will see every later one);
+//@ # only a service that has already reached a terminal state, which never changes again, may ignore it
+//@ func BasicService.AddListener
+//@   property C17
+//@   ensures  registered: old(b).state != Terminated && old(b).state != Failed ==> len(b.listeners) == len(old(b).listeners) + 1
+//@   ensures  terminal: old(b).state == Terminated || old(b).state == Failed ==> len(b.listeners) == len(old(b).listeners)
+//@   ensures  b.state == old(b).state
